@@ -36,6 +36,8 @@ def dispatch (line : String) : String :=
   | "loadverdicts" :: args => C01.loadverdicts args
   | "loadcheck" :: args => C01.loadcheck args
   | "seriesverdict" :: args => C16.seriesverdict args
+  | "lffull" :: args => C04.lffull args
+  | "lffrag" :: args => C04.lffrag args
   | "canjoin" :: args => C04.canjoin args
   | "lfanalyse" :: args => C04.lfanalyse args
   | "lfpossible" :: args => C04.lfpossible args
